@@ -501,11 +501,31 @@ fn run_i1<T: Scalar>(t: &mut Toks) -> Result<Outcome, String> {
 // Interp2D
 // ---------------------------------------------------------------------------------------
 
+/// x and y query arrays as two views of ONE allocation: when the x array is stored in standard order, the y array is declared with its
+/// last two axes swapped in memory (`perm`), the last two axes have equal length and the y contents are the x contents with those
+/// axes exchanged, the y view handed to the crate is `x.swap_axes(r-1, r-2)` — same first element, same shape, other strides (the
+/// square-mesh idiom `interp_array(&q, &q.t())`).  Results must not depend on that (C13); the all-C twin of a case never aliases.
+fn alias_view<'a, T: Scalar>(qx: &'a Stored<T>, qy: &Stored<T>) -> Option<ndarray::ArrayViewD<'a, T>> {
+    let r = qx.shape.len();
+    if r < 2 || qx.lay != Lay::C || qy.lay != Lay::Perm || qx.shape != qy.shape || qx.shape[r - 1] != qx.shape[r - 2] {
+        return None;
+    }
+    let mut v = qx.view();
+    v.swap_axes(r - 1, r - 2);
+    if v.iter().zip(qy.view().iter()).all(|(a, b)| a.show() == b.show()) {
+        Some(v)
+    } else {
+        None
+    }
+}
+
 macro_rules! i2_array {
     ($Dq:ty, $D:ty, $it:expr, $qx:expr, $qy:expr) => {{
         let x = $qx.view().into_dimensionality::<$Dq>().unwrap();
-        let y = $qy
-            .view()
+        let y_alias = alias_view(&$qx, &$qy);
+        let y = y_alias
+            .clone()
+            .unwrap_or_else(|| $qy.view())
             .into_dimensionality::<$Dq>()
             .map_err(|_| "inexpressible: x/y query rank".to_string())?;
         match $it.interp_array(&x, &y) {
@@ -518,8 +538,10 @@ macro_rules! i2_array {
 macro_rules! i2_ainto {
     ($Dq:ty, $D:ty, $it:expr, $qx:expr, $qy:expr, $buf:expr) => {{
         let x = $qx.view().into_dimensionality::<$Dq>().unwrap();
-        let y = $qy
-            .view()
+        let y_alias = alias_view(&$qx, &$qy);
+        let y = y_alias
+            .clone()
+            .unwrap_or_else(|| $qy.view())
             .into_dimensionality::<$Dq>()
             .map_err(|_| "inexpressible: x/y query rank".to_string())?;
         let r = {
